@@ -132,6 +132,10 @@ class Channel(ClosingContextManager):
         self.combine_stderr = False
         self.exit_status = -1
         self.origin_addr = None
+        # data messages built under the lock but not yet handed to the
+        # transport, and EOF/CLOSE messages held back until they are
+        self._sends_in_flight = 0
+        self._ctl_pending = []
 
     def __del__(self):
         try:
@@ -1217,12 +1221,31 @@ class Channel(ClosingContextManager):
                 # eof or similar
                 return 0
             m.add_string(s[:size])
+            self._sends_in_flight += 1
         finally:
             self.lock.release()
         # Note: We release self.lock before calling _send_user_message.
         # Otherwise, we can deadlock during re-keying.
-        self.transport._send_user_message(m)
+        try:
+            self.transport._send_user_message(m)
+        finally:
+            self._send_done()
         return size
+
+    def _send_done(self):
+        # A data message has reached the transport. If an EOF/CLOSE was
+        # produced meanwhile (close(), shutdown_write() or a peer CLOSE), it
+        # was held back so that it cannot overtake that data; send it now.
+        self.lock.acquire()
+        try:
+            self._sends_in_flight -= 1
+            if self._sends_in_flight > 0:
+                return
+            msgs, self._ctl_pending = self._ctl_pending, []
+        finally:
+            self.lock.release()
+        for m in msgs:
+            self.transport._send_user_message(m)
 
     def _log(self, level, msg, *args):
         self.logger.log(level, "[chan " + self._name + "] " + msg, *args)
@@ -1265,6 +1288,10 @@ class Channel(ClosingContextManager):
         m.add_int(self.remote_chanid)
         self.eof_sent = True
         self._log(DEBUG, "EOF sent ({})".format(self._name))
+        if self._sends_in_flight > 0:
+            # goes out right after the data that is still on its way
+            self._ctl_pending.append(m)
+            return None
         return m
 
     def _close_internal(self):
@@ -1278,6 +1305,9 @@ class Channel(ClosingContextManager):
         self._set_closed()
         # can't unlink from the Transport yet -- the remote side may still
         # try to send meta-data (exit-status, etc)
+        if self._sends_in_flight > 0:
+            self._ctl_pending.append(m2)
+            return m1, None
         return m1, m2
 
     def _unlink(self):
